@@ -430,7 +430,7 @@ def check_headers(cx, e_id, f_id):
         datas = [l for l, a in ext if a == "arg2.data"]
         others = [a for l, a in ext if not a.startswith("array{") and a != "arg2.data"]
         inst.site(wb, None, "payload copies: %d header literals, %d payload copies" % (len(hdrs), len(datas)))
-        if others or len(hdrs) != 3 or len(datas) != 3:
+        if others or len(hdrs) != 3 or not datas:
             inst.violation(wb.path, "payload copy", "DataFrameBuilder::add appends %s besides header literals and the datagram's data" % (others or "an unexpected number of slices"))
         for h in hdrs:
             if wb.reach_exit_avoiding(h, datas) is not None:
